@@ -126,6 +126,8 @@ func Run(c *hx.Ctx) {
 			matCases(c)
 		case "h2pay":
 			h2payCases(c)
+		case "h2hl":
+			h2hlCases(c)
 		}
 		return
 	}
@@ -232,6 +234,8 @@ func Run(c *hx.Ctx) {
 	matCases(c)
 	// [c08p10] the HTTP/2 frame payload parsers: type × length × flags × stream id × pad octet, capacity == length
 	h2payCases(c)
+	// [c08p10] the header list of readMetaFrame at its MAX_HEADER_LIST_SIZE budget
+	h2hlCases(c)
 	// the decode loop of the real Dispatch under a Decode-call counter and a watchdog
 	dispCases(c)
 	// the decode loops of the real HTTP/2 server / client Dispatch under a Decode-call recorder and a watchdog
